@@ -370,10 +370,18 @@ func runResultDependsOnType(rr *RuleRun) {
 		if len(dep) == 0 {
 			continue
 		}
+		checkTypeDependence(rr, c, info, r.Pkg+"."+declName(r.FD), r.FD.Body, dep, "the requested type")
+	}
+}
+
+// checkTypeDependence: every successful (value, nil) return of body is data-dependent on one of the
+// objects in dep (closed under local assignments) or control-dependent on a condition mentioning one.
+func checkTypeDependence(rr *RuleRun, c *Ctx, info *types.Info, name string, body *ast.BlockStmt, dep map[types.Object]bool, what string) {
+	{
 		// flow-insensitive closure: a local assigned from an expression mentioning a dependent object is dependent
 		for changed := true; changed; {
 			changed = false
-			inspectNoLit(r.FD.Body, func(n ast.Node) bool {
+			inspectNoLit(body, func(n ast.Node) bool {
 				mark := func(lhs []ast.Expr, rhs []ast.Expr) {
 					m := false
 					for _, e := range rhs {
@@ -423,21 +431,21 @@ func runResultDependsOnType(rr *RuleRun) {
 				return true
 			})
 		}
-		g := c.CFG(r.FD.Body, info)
+		g := c.CFG(body, info)
 		for _, ret := range g.Returns() {
 			if len(ret.Results) != 2 || !isNilIdent(info, ret.Results[1]) {
 				continue
 			}
-			key := fmt.Sprintf("%s.%s/return %s", r.Pkg, declName(r.FD), trunc(exprStr(ret.Results[0]), 50))
+			key := fmt.Sprintf("%s/return %s", name, trunc(exprStr(ret.Results[0]), 50))
 			if mentionsAny(info, ret.Results[0], dep) {
-				rr.OKTrivial(key, ret.Pos(), "the returned value is computed from the requested type")
+				rr.OKTrivial(key, ret.Pos(), "the returned value is computed from "+what)
 				continue
 			}
 			if cond := controlDependsOn(g, info, ret, dep); cond != "" {
-				rr.OK(key, ret.Pos(), "reached only through one outcome of '"+cond+"', which consults the requested type")
+				rr.OK(key, ret.Pos(), "reached only through one outcome of '"+cond+"', which consults "+what)
 				continue
 			}
-			rr.Violation(key, ret.Pos(), fmt.Sprintf("%s is returned as a successful result although neither the value nor any condition on the way to this return consults the requested type: it cannot conform to every requested type", exprStr(ret.Results[0])))
+			rr.Violation(key, ret.Pos(), fmt.Sprintf("%s is returned as a successful result although neither the value nor any condition on the way to this return consults %s: it cannot conform to every requested type", exprStr(ret.Results[0]), what))
 		}
 	}
 }
